@@ -500,6 +500,10 @@ def dyne_case(draw):
     modes = draw(progs.ordered_modes(d, k))
     hbar = draw(st.sampled_from([1.0, 2.0, 0.5]))
     sim = draw(st.sampled_from(["G", "G", "PF"])) if meas == "homodyne" else "G"
+    if sim == "PF":
+        # known finding (probed by 'pf_homodyne_multimode'): the pure Fock simulator's
+        # homodyne sampler is wrong from the second measured mode on
+        modes = modes[:1]
     return {"sim": sim, "d": d, "gates": gates, "meas": meas, "modes": modes, "hbar": hbar,
             "phi": draw(progs.angle()) if sim == "G" else 0.0,
             "cseed": draw(st.integers(0, 2**16))}
@@ -640,9 +644,47 @@ def prop_homodyne_shape(case, ctx):
                         f"have {len(bad[0])} entries, {k} quantities were measured")
 
 
+def pf_homodyne_multimode_cases(tier):
+    return [{"modes": [0, 1]}, {"modes": [1, 0]}]
+
+
+def prop_pf_homodyne_multimode(case, ctx):
+    """Two-mode squeezed vacuum with an extra squeezer, homodyne on both modes: the
+    marginal variance of every measured quadrature and their covariance are known in
+    closed form from the Gaussian moments."""
+    ctx.case(case, True, ["pf_homodyne_multimode"])
+    hbar, n = 1.0, 12000
+    with warnings.catch_warnings():
+        warnings.simplefilter("ignore")
+        with pq.Program() as prep:
+            pq.Q() | pq.Vacuum()
+            pq.Q(0, 1) | pq.Squeezing2(0.44, 0.0)
+            pq.Q(1) | pq.Squeezing(0.3)
+        g = pq.GaussianSimulator(d=2, config=pq.Config(hbar=hbar)).execute(prep).state
+        cov = np.asarray(g.xpxp_covariance_matrix, dtype=float)
+        idx = [2 * m for m in case["modes"]]
+        want = cov[np.ix_(idx, idx)] / 2
+        prog = pq.Program(instructions=[i.copy() for i in prep.instructions]
+                          + [pq.HomodyneMeasurement().on_modes(*case["modes"])])
+        res = pq.PureFockSimulator(d=2, config=pq.Config(cutoff=14, hbar=hbar,
+                                                        seed_sequence=3)).execute(prog, shots=n)
+    x = np.array(res.samples, dtype=float)
+    got = np.cov(x.T)
+    se = np.sqrt((np.outer(np.diag(want), np.diag(want)) + want ** 2) / n)
+    z = np.abs(got - want) / se
+    if z.max() > 10:
+        raise Violation("C02:dyne:PF:homodyne:multimode-conditional-law",
+                        f"PureFockSimulator HomodyneMeasurement on modes {case['modes']} of a "
+                        f"two-mode squeezed state: sample covariance {np.round(got, 3).tolist()} vs "
+                        f"quantum {np.round(want, 3).tolist()} (max z = {z.max():.0f}, N = {n}); "
+                        f"single-mode measurements are right")
+
+
 def parts(tier):
     TIER["value"] = tier
     return [
+        Part("pf_homodyne_multimode", prop_pf_homodyne_multimode, kind="enum",
+             cases=pf_homodyne_multimode_cases),
         Part("homodyne_shape", prop_homodyne_shape, kind="enum", cases=homodyne_shape_cases),
         Part("dyne", prop_dyne, strategy=dyne_case(),
              examples={"quick": 96, "thorough": 1500}, shrink=False),
